@@ -453,6 +453,17 @@ def run(ctx: Ctx) -> int:
         construct="meta key by leaf component",
     )
 
+    # a parameter reached through several **kwargs uses stays REQUIRED unless the uses really disagree: the merged
+    # parameter is unconditional when there is at most one type and at most one default (none = required everywhere)
+    gpm = ctx.func("_parameter_resolvers:group_parameters")
+    lens = [n_ for n_ in ast.walk(gpm) if isinstance(n_, ast.Compare) and isinstance(n_.left, ast.Call) and call_leaf(n_.left) == "len" and n_.left.args and isinstance(n_.left.args[0], ast.Name) and n_.left.args[0].id in ("types", "defaults") and isinstance(n_.comparators[0], ast.Constant) and n_.comparators[0].value == 1]
+    # (the two tests inside the one condition that decides "unconditional")
+    lens = [n_ for n_ in lens if isinstance(getattr(n_, "_jv_parent", None), ast.BoolOp) and sum(1 for v in getattr(n_, "_jv_parent").values if v in lens) >= 2]
+    ctx.need(len(lens) >= 2, "group_parameters: len(types) <= 1 and len(defaults) <= 1")
+    bad_l = [n_ for n_ in lens if not isinstance(n_.ops[0], ast.LtE)]
+    ok = not bad_l
+    ctx.oblige("C06.d", ok, bad_l[0] if bad_l else lens[0], "a merged **kwargs parameter is unconditional with at most one type and at most one default" if ok else f"`{ast.unparse(bad_l[0])}`: a parameter that has NO default in any of several **kwargs destinations (required everywhere) is no longer the unconditional case - it becomes a conditional default, so the required key is accepted when missing or null", fn=gpm, construct="required across kwargs uses")
+
     # ---------------- C06.f ---------------------------------------------------
     # dotted-key prefix tests of the two permitted skips: `a.startswith(b)` with a computed b decides "a is nested under b" only when b ends
     # with the separator; without it `model.lay` passes for `model.layers`, `optim` for `optimizer.lr`
